@@ -676,8 +676,11 @@ class DAGRunConcurrentManager(DAGRunManagerLike):
                 # will be executed again and the function will unlock the descendants in the other branch.
                 to_unlock_descendants = False
 
-            logger.debug('Save the result "%s" for the node %s', result, node_id)
-            self._node_storage.set_node_result(node_id, result)
+            if executed_here:
+                # A task that has only waited for the node must not store anything: the result it has read can be
+                # hidden already (None) because the node is being executed again in a recurrent subgraph.
+                logger.debug('Save the result "%s" for the node %s', result, node_id)
+                self._node_storage.set_node_result(node_id, result)
 
             # TODO: Needs to reorganize saving policy for artifact storage
             # Only a real value is an artifact of the node (neither a restart marker nor an error contained by OneOf),
